@@ -2,10 +2,11 @@
 # usage: tools/run_seed.sh <seed-name> <prop> [extra symgo args]
 # Applies a seeded change to a scratch worktree of /repo's HEAD (never to /repo itself), runs the check
 # against it with -repo, and removes the worktree.
+V=$(cd "$(dirname "$0")/.." && pwd)
 S=$1; P=$2; shift 2
 WT=/tmp/seedwt_${S}_$$
 git -C /repo worktree add -q --detach $WT HEAD || exit 2
-( cd $WT && git apply /verif/seeded/$S/patch.diff ) || { git -C /repo worktree remove --force $WT; exit 2; }
-cd /verif && timeout ${SEED_TIMEOUT:-1500} ./bin/symgo -repo $WT -prop $P -tier quick -noevidence "$@" 2>&1 | grep -v progress | sed "s|$WT|/repo|g" | tail -${TAILN:-8}
+( cd $WT && git apply $V/seeded/$S/patch.diff ) || { echo "PATCH-DOES-NOT-APPLY $S"; git -C /repo worktree remove --force $WT; exit 2; }
+cd $V && timeout ${SEED_TIMEOUT:-1500} ./bin/symgo -verif $V -repo $WT -prop $P -tier quick -noevidence "$@" 2>&1 | grep -v progress | sed "s|$WT|/repo|g" | tail -${TAILN:-8}
 git -C /repo worktree remove --force $WT
 git -C /repo worktree prune
